@@ -49,6 +49,7 @@ ANALYSIS_ROOTS = ['CppCheck::check', 'CppCheck::checkFile', 'CppCheck::checkBuff
 
 def run(ctx):
     F = ctx.facts
+    r28_4(ctx)
     ctx.rule('R28.1', 'every id a reporting call reachable from the analysis can carry (user-facing severity) is '
                       'produced by CppCheck::getErrorMessages')
     ctx.rule('R28.2', 'every InternalError id (typeToString) thrown by analysis code is listed')
@@ -259,3 +260,43 @@ def caller_bound_ids(F, R, fn, reach):
     for e in effs:
         out |= {i if isinstance(i, str) else TOP for i in e['id']}
     return out
+
+
+def r28_4(ctx):
+    """R28.4  the documentation messages reach the caller's logger unfiltered: in CppCheck::getErrorMessages every call of a *::getErrorMessages
+    function receives the function's own ErrorLogger parameter.  A CppCheck instance's logger drops messages whose formatted text (a template
+    without {id}, no location) was already seen, so distinct ids with the same example text would collapse into one."""
+    from .common.facts import walk, strip, call_args
+    F = ctx.facts
+    ctx.rule('R28.4', 'getErrorMessages passes the caller\'s logger to every documentation emitter')
+    g = F.one('CppCheck::getErrorMessages')
+    body = F.body(g)['body']
+    pdi = {p['di'] for p in g['params']}
+    inits = {v['di']: v['init'] for v in walk(body) if v.get('k') == 'VarDecl' and v.get('init') is not None}
+    n = 0
+    for x in walk(body):
+        if x.get('k') in ('CallExpr', 'CXXMemberCallExpr') and (x.get('fn') or '').endswith('::getErrorMessages'):
+            for a in call_args(x):
+                t = ''
+                for y in walk(a):
+                    if y.get('t') and 'ErrorLogger' in y['t']:
+                        t = y['t']
+                        break
+                if not t:
+                    continue
+                n += 1
+                root = a
+                while root is not None and root.get('k') in ('ImplicitCastExpr', 'UnaryOperator', 'ParenExpr', 'MaterializeTemporaryExpr') and root.get('c'):
+                    root = root['c'][0]
+                # a local reference that is bound to the parameter is the parameter
+                hops = 0
+                while root is not None and root.get('k') == 'DeclRefExpr' and root.get('di') not in pdi and root.get('di') in inits and hops < 4:
+                    root = inits[root['di']]
+                    while root is not None and root.get('k') in ('ImplicitCastExpr', 'UnaryOperator', 'ParenExpr', 'MaterializeTemporaryExpr') and root.get('c'):
+                        root = root['c'][0]
+                    hops += 1
+                ok = root is not None and root.get('k') == 'DeclRefExpr' and root.get('di') in pdi
+                ctx.ob('R28.4', 'logger:%s' % x['fn'], ok, ('%s receives the caller\'s logger' % x['fn']) if ok else
+                       ('%s is given %s instead of the caller\'s logger: the list goes through a duplicate filter keyed on text without the id, so ids whose '
+                        'example messages coincide disappear from --errorlist' % (x['fn'], (root or {}).get('n') or (root or {}).get('k'))), '%s:%s' % (g['file'], x['l']))
+    ctx.floor('R28.4 documentation emitters called by getErrorMessages', n, 4)
